@@ -106,6 +106,7 @@ func (lq *LQ) updateQ() {
 	if lq.q == nil {
 		lq.q = NewDense(n, n, nil)
 	} else {
+		lq.q.Reset()
 		lq.q.reuseAsNonZeroed(n, n)
 	}
 	// Construct Q from the elementary reflectors.
